@@ -28,9 +28,37 @@ theorem infoStep_frag (cfg : Cfg) (p : Pdu) (consumed : Bool) (buf buf' : List N
       · split at h
         · cases h
         · next hcap =>
-          cases h
-          simp only [List.length_append]
-          omega
+          split at h
+          · cases h
+          · cases h
+            simp only [List.length_append]
+            omega
+  · cases h
+
+/-- A fragment that announces more fragments has added at least one byte (fix-c16-endless-loops). -/
+theorem infoStep_progress (cfg : Cfg) (p : Pdu) (consumed : Bool) (buf buf' : List Nat)
+    (hp : (infoTrim p consumed).bytes.length = (infoTrim p consumed).len)
+    (h : infoStep cfg p consumed buf = .ok (.frag buf' true)) : buf.length < buf'.length := by
+  unfold infoStep at h
+  obtain ⟨hd, _, h⟩ := bind_ok_inv h
+  split at h
+  · split at h
+    · cases h
+    · next hge =>
+      split at h
+      · cases h
+      · next hlen =>
+        split at h
+        · cases h
+        · split at h
+          · cases h
+          · next hz =>
+            injection h with h
+            injection h with hb hi
+            subst hb
+            simp only [Bool.and_eq_true, beq_iff_eq, not_and, hi, true_implies] at hz
+            simp only [List.length_append, List.length_take, hp]
+            omega
   · cases h
 
 theorem infoLoop_noPanic (cfg : Cfg) : ∀ (q : List (List Nat)) (consumed : Bool) (buf : List Nat) (reads : Nat),
@@ -47,7 +75,6 @@ theorem infoLoop_noPanic (cfg : Cfg) : ∀ (q : List (List Nat)) (consumed : Boo
     | panic why => rw [hs] at hstep; simp at hstep
     | ok st =>
       cases st with
-      | skip => exact ih _ _ _
       | frag buf' inc =>
         dsimp only
         split
@@ -69,7 +96,6 @@ theorem infoLoop_bounded (cfg : Cfg) : ∀ (q : List (List Nat)) (consumed : Boo
     | ok st =>
       rw [hs] at h
       cases st with
-      | skip => exact ih _ _ _ _ h
       | frag buf' inc =>
         dsimp only at h
         split at h
@@ -91,9 +117,6 @@ theorem infoLoop_reads (cfg : Cfg) : ∀ (q : List (List Nat)) (consumed : Bool)
     | panic why => simp only [List.length_cons]; omega
     | ok st =>
       cases st with
-      | skip =>
-        have := ih consumed buf (reads + 1)
-        simp only [List.length_cons]; omega
       | frag buf' inc =>
         dsimp only
         split
@@ -101,34 +124,23 @@ theorem infoLoop_reads (cfg : Cfg) : ∀ (q : List (List Nat)) (consumed : Bool)
           simp only [List.length_cons]; omega
         · simp only [List.length_cons]; omega
 
-/-- A message makes progress if the loop cannot ignore it and, when it is accepted as a non-final fragment, it adds at
-    least one byte. -/
-def Progress (cfg : Cfg) (m : List Nat) : Prop :=
-  ∀ consumed buf, match infoStep cfg (mkPdu cfg (image cfg.rmbx m)) consumed buf with
-    | .ok .skip => False
-    | .ok (.frag buf' true) => buf.length < buf'.length
-    | _ => True
-
-/-- If every message makes progress, the number of mailbox reads is bounded by the buffer capacity, however long
-    the device keeps sending. -/
+/-- Whatever the device sends and however long it keeps sending: the number of mailbox reads of the SDO-info loop is
+    bounded by the free space of the accumulation buffer (+1), because every fragment that announces another one adds at
+    least one byte and everything else ends the loop (fix-c16-endless-loops). -/
 theorem infoLoop_reads_bounded (cfg : Cfg) : ∀ (q : List (List Nat)) (consumed : Bool) (buf : List Nat) (reads : Nat),
-    (∀ m ∈ q, Progress cfg m) → buf.length ≤ INFO_BUF_CAP →
+    buf.length ≤ INFO_BUF_CAP →
       (infoLoop cfg q consumed buf reads).2.2 ≤ reads + (INFO_BUF_CAP - buf.length) + 1 := by
   intro q
   induction q with
-  | nil => intro _ _ _ _ _; show _ ≤ _; simp [infoLoop]; omega
+  | nil => intro _ _ _ _; show _ ≤ _; simp [infoLoop]; omega
   | cons m q ih =>
-    intro consumed buf reads hq hb
+    intro consumed buf reads hb
     unfold infoLoop
-    have hp := hq m List.mem_cons_self consumed buf
-    have hq' : ∀ m' ∈ q, Progress cfg m' := fun m' h' => hq m' (List.mem_cons_of_mem _ h')
     cases hs : infoStep cfg (mkPdu cfg (image cfg.rmbx m)) consumed buf with
     | err e => dsimp only; omega
     | panic why => dsimp only; omega
     | ok st =>
-      rw [hs] at hp
       cases st with
-      | skip => exact absurd hp id
       | frag buf' inc =>
         dsimp only
         have hf := infoStep_frag _ _ _ _ _ _ hs
@@ -136,8 +148,21 @@ theorem infoLoop_reads_bounded (cfg : Cfg) : ∀ (q : List (List Nat)) (consumed
         | false => simp only [Bool.false_eq_true, if_false]; omega
         | true =>
           simp only [if_true]
-          have hlt : buf.length < buf'.length := hp
-          have := ih true buf' (reads + 1) hq' hf.2
+          have hlt : buf.length < buf'.length := by
+            refine infoStep_progress cfg _ consumed buf buf' ?_ hs
+            have hok : (infoTrim (mkPdu cfg (image cfg.rmbx m)) consumed).start +
+                (infoTrim (mkPdu cfg (image cfg.rmbx m)) consumed).len ≤
+                (infoTrim (mkPdu cfg (image cfg.rmbx m)) consumed).frame.length := by
+              have h0 := mkPdu_ok cfg (image cfg.rmbx m)
+              unfold infoTrim
+              split
+              · show _ + min _ _ + min _ _ + (_ - _ - _) ≤ _
+                simp only [Pdu.trimFront] at *
+                omega
+              · simp only [Pdu.trimFront] at *
+                omega
+            exact Pdu.bytes_length _ hok
+          have := ih true buf' (reads + 1) hf.2
           omega
 
 /-! ### send_sdo_info_service and its two callers -/
